@@ -42,6 +42,7 @@ def gen(rng, prop, job):
 
 def make_jobs(prop, tier, seed):
     jobs = plug.std_jobs(prop, tier, seed, "m6", n_quick=16, per_quick=8, schedules=6)
+    jobs.extend(plug.line_jobs(prop, tier, seed))
     if prop == "C14":
         for j in range(2 if tier == "quick" else 12):
             jobs.append({"kind": "explore", "crash": True, "prop": prop, "seed": seed * 49979693 + j, "scenarios": 8, "schedules": 4, "no_driver": True})
